@@ -188,9 +188,9 @@ theorem rel_frame_world : type_of% @Ark.Props.C04Hist.frame_world := @Ark.Props.
 theorem rel_frame_del : type_of% @Ark.Props.C04Hist.frame_del := @Ark.Props.C04Hist.frame_del
 
 
-/-! ### The relation machine extended by CopyEntity, Shrink, filters and queries (Props/C01Rel) -/
+/-! ### The relation machine extended by CopyEntity, Shrink, Reset, filters and queries (Props/C01Rel) -/
 
-/-- after every Reset-free history of the extended relation machine every specified entity is alive with exactly the specified components, values and relation targets -/
+/-- after every history of the extended relation machine (Reset anywhere in it) every specified entity is alive with exactly the specified components, values and relation targets -/
 theorem rel2_refines : type_of% @Ark.Props.C01Rel.refines := @Ark.Props.C01Rel.refines
 
 /-- a handle the client holds is alive iff the specification has an entry for it -/
@@ -213,6 +213,12 @@ theorem rel2_copy_rejected : type_of% @Ark.Props.C01Rel.copy_rejected := @Ark.Pr
 
 /-- CopyEntity at world level in a world with relations never fails for a live entity -/
 theorem rel2_copyEntity_rel : type_of% @Ark.Props.C01Rel.copyEntity_rel := @Ark.Props.C01Rel.copyEntity_rel
+
+/-- Reset in the relation machine ends the epoch: specification empty, registry kept, nothing issued, no ID indexed to a table, cache empty, every handle issued before is dead -/
+theorem rel2_reset_effect : type_of% @Ark.Props.C01Rel.reset_effect := @Ark.Props.C01Rel.reset_effect
+
+/-- no handle issued along a history of the relation machine carries the sentinel generation MaxUint32 -/
+theorem rel2_issued_gen_bound : type_of% @Ark.Props.C01Rel.issued_gen_bound := @Ark.Props.C01Rel.issued_gen_bound
 
 
 
